@@ -34,7 +34,7 @@ def universe():
     import dbmodel as _M
     for a, b in _M.FOLD_PAIRS:
         pts += [{"time": a, "meas": "m1", "tags": {"a": "x"}, "fields": {"a": 1}}, {"time": b, "meas": "m1", "tags": {"a": "x"}, "fields": {"a": 1}}]
-    return pts
+    return pts + far_points()
 
 
 def vocabulary():
@@ -84,6 +84,36 @@ def vocabulary():
     raising = [("S", "tags", [("k", "a")], ("user", 1)), ("S", "fields", [("k", "a")], ("user", 1)), ("S", "fields", [("k", "a")], ("user", 2)),
                ("S", "fields", [("k", "a")], ("user", 5)), ("S", "fields", [("k", "a")], ("user", 6))]     # bound methods of two instances of one class
     return v, raising
+
+
+FAR = [15000000000 * 1000000 + 999998, 15000000000 * 1000000 + 999999,            # year 2445: adjacent microseconds share one float stamp
+       -9000000000 * 1000000 + 1, -9000000000 * 1000000 + 2,                         # year 1684
+       253000000000 * 1000000 + 999998, 253000000000 * 1000000 + 999999]           # year 9987
+
+
+def hash_twin_atoms():
+    """simple queries whose comparison values (or keys) have colliding Python hashes while being different values: -1 / -2, 0 / 2**61-1,
+    0.5 / 2**60, and instants one microsecond apart far from the present (their float stamps coincide)"""
+    f = lambda op, v: ("S", "fields", [("k", "a")], ("cmp", op, ("n", v)))
+    atoms = [f("==", -1), f("==", -2), f("<=", -2), f("<=", -1), f("==", 0), f("==", 2 ** 61 - 1), f("==", 0.5), f("==", 2 ** 60), f("!=", -1), f("!=", -2)]
+    atoms += [("S", "time", [], ("cmp", op, ("t", t))) for op in ("==", "<=") for t in FAR]
+    return atoms
+
+
+def twin_compounds():
+    """every ordered pair of hash-twin atoms under & and |, and their negations: a combinator that identifies its operands by hash() rather
+    than by == silently drops or merges one of them"""
+    a = hash_twin_atoms()
+    out = list(a) + [("not", x) for x in a[:6]]
+    for x in a:
+        for y in a:
+            if x is not y and x[1] == y[1]:
+                out += [("and", x, y), ("or", x, y)]
+    return out
+
+
+def far_points():
+    return [{"time": t, "meas": "m1", "tags": {"a": "x"}, "fields": {"a": [-1, -2, 0, 0.5, 2 ** 60, 2 ** 61 - 1][i]}} for i, t in enumerate(FAR)]
 
 
 def wf(q):
@@ -161,3 +191,34 @@ def emit_eq_cases(path, qs, eq_pairs, hashable):
              "Definition hbad : list nat := map fst (filter (fun x => negb (Bool.eqb (is_hashable (fst (snd x))) (snd (snd x)))) (combine (seq 0 (length qs)) (combine qs hexp))).",
              "Eval vm_compute in (N.of_nat (length qs), map N.of_nat (badrows 0 model_pairs expected) ++ map (fun x => (1000000 + N.of_nat x)%N) hbad)."]
     path.write_text("\n".join(lines) + "\n")
+
+
+def edited_point_check(tf, qs, rqs, univ, limit=400, step=3):
+    """the same query OBJECT asked again about a Point whose tags / fields mappings the caller edited in place in between (valid values only):
+    it must answer as a freshly built equal query does, and as the documented meaning says - whatever a query object remembers about the
+    last point it saw must not outlive the edit.  -> list of failing inputs"""
+    bad, checked = [], 0
+    picks = [i for i in range(0, len(qs), step) if rqs[i] is not None][:limit]
+    pts = [j for j, p in enumerate(univ) if "a" in p["tags"] and "a" in p["fields"]][:6]
+    for i in picks:
+        for j in pts:
+            neutral = {"time": univ[j]["time"], "meas": univ[j]["meas"], "tags": dict(univ[j]["tags"]), "fields": dict(univ[j]["fields"])}
+            p = M.real_point(tf, neutral)
+            r1 = impl_eval(tf, rqs[i], p)
+            new_tag = "ab" if neutral["tags"]["a"] != "ab" else "x"
+            new_field = 1 if neutral["fields"]["a"] != 1 else -2
+            p.tags["a"] = new_tag                       # in place: the mapping object stays the same
+            p.fields["a"] = new_field
+            neutral["tags"]["a"], neutral["fields"]["a"] = new_tag, new_field
+            r2 = impl_eval(tf, rqs[i], p)
+            try:
+                fresh = M.real_query(tf, qs[i], {})
+            except Exception:  # noqa
+                continue
+            r3 = impl_eval(tf, fresh, M.real_point(tf, neutral))
+            checked += 1
+            if r2 != r3 and len(bad) < 3:
+                bad.append({"query": qs[i], "point_before_edit": univ[j], "point_after_edit": neutral, "same_object_before": r1, "same_object_after": r2,
+                            "fresh_equal_query_after": r3, "why": "a query object evaluated on a point, the point's mappings edited in place, the same "
+                            "object evaluated again: it answers differently from a freshly built equal query"})
+    return bad, checked
